@@ -425,6 +425,7 @@ class Gen:
         self.features = set()
         self.want_error = rng.random() < cfg.p_error
         self.error_done = False
+        self.no_str_vars = False
 
     # -- names --------------------------------------------------------------------------------
     def fresh(self, prefix):
@@ -471,13 +472,15 @@ class Gen:
         if ty == "mixed":
             return self.mixed(sc, d, pure)
         vs = sc.lookup("vars", lambda n, t: t == ty)
+        if ty == "str" and self.no_str_vars:
+            vs = []      # keeps strings from doubling in loops (`$s: $s + $s`)
         if d <= 0 or r.random() < 0.25:
             if vs and r.random() < 0.6:
                 return ("var", r.choice(vs)[0])
             return self.lit(ty)
         if vs and r.random() < 0.3:
             return ("var", r.choice(vs)[0])
-        fns = [] if pure else sc.lookup("fns", lambda n, f: f[1] == ty)
+        fns = [] if (pure or (ty == "str" and self.no_str_vars)) else sc.lookup("fns", lambda n, f: f[1] == ty)
         if fns and r.random() < 0.3:
             return self.call(sc, r.choice(fns), d, pure)
         if r.random() < 0.08:
@@ -502,14 +505,22 @@ class Gen:
             if c < 0.5:
                 self.features.add("str+")
                 if r.random() < 0.7:
-                    return ("bin", "add", self.expr(sc, "str", d - 1, pure),
-                            self.expr(sc, r.choice(["str", "num", "bool"]), d - 1, pure))
+                    a = self.expr(sc, "str", d - 1, pure)
+                    saved, self.no_str_vars = self.no_str_vars, True
+                    b = self.expr(sc, r.choice(["str", "num", "bool"]), d - 1, pure)
+                    self.no_str_vars = saved
+                    return ("bin", "add", a, b)
                 return ("bin", "add", self.expr(sc, "num", d - 1, pure), self.expr(sc, "str", d - 1, pure))
             if c < 0.7:
                 self.features.add("interp")
                 parts = []
+                saved = self.no_str_vars
                 for _ in range(r.choice([1, 2])):
-                    parts.append((r.choice(["", "k", "m-", "t "]), self.expr(sc, r.choice(["num", "str", "bool"]), d - 1, pure)))
+                    t = r.choice(["num", "str", "bool"])
+                    parts.append((r.choice(["", "k", "m-", "t "]), self.expr(sc, t, d - 1, pure)))
+                    if t == "str":
+                        self.no_str_vars = True
+                self.no_str_vars = saved
                 parts.append((r.choice(["", "e"]), None))
                 return ("interp", True, tuple(parts))
             if c < 0.8:
